@@ -1,5 +1,5 @@
-Require Import Base GdsFrame GdsModel GdsWrite GdsRoundtrip GdsSpec.
+Require Import Base GdsFrame GdsModel GdsWrite GdsRoundtrip GdsSpec GdsRaw.
 Require Import Extraction ExtrOcamlBasic.
 Extraction Blacklist List String Int.
 Extraction "../ocaml/extracted/gds.ml" write_gds_model read_gds_model gds_info_model real_scaled rewrite_ts
-  spec_decode enc16 Z.of_N Z.of_nat N.of_nat new_poly new_path new_ref new_label.
+  spec_decode read_rawcells_model enc16 Z.of_N Z.of_nat N.of_nat new_poly new_path new_ref new_label.
